@@ -1710,9 +1710,23 @@ class Machine:
                     what += f'{f}: pop and re-add {k!r}'
                 elif e == 'update':
                     items = draw_dict_items(rng, f)
-                    d.update({k: build(v) for k, v in items})
-                    md.d.update(items_to_model(items))
-                    what += f'{f}.update({items})'
+                    new = {k: build(v) for k, v in items}
+                    newm = items_to_model(items)
+                    if f == 'visual' and rng.chance(0.4):
+                        # ... through a documented alias of a key: stored
+                        # (and compared, and copied) under the key itself
+                        al, val_ = rng.pick([['width', 3], ['point', 'x'],
+                                             ['width', 1.5], ['point', '+']])
+                        new[al] = val_
+                        newm.pop(VISUAL_KEYMAP[al], None)
+                        new.pop(VISUAL_KEYMAP[al], None)
+                        newm[VISUAL_KEYMAP[al]] = val_
+                    if rng.chance(0.5):
+                        d.update(new)
+                    else:
+                        d |= new
+                    md.d.update(newm)
+                    what += f'{f}.update({sorted(new)})'
                 elif e == 'clear':
                     d.clear()
                     md.d.clear()
@@ -3004,6 +3018,22 @@ class Machine:
         invalid = rng.chance(0.65)
         f = rng.pick(['region1', 'region2', 'meta', 'visual'])
         sky = S.model.sky
+        if invalid and rng.chance(0.2):
+            # the operator: whether it can be assigned at all is the
+            # library's choice (today it cannot), but nothing that is not
+            # callable may ever be stored
+            name, v = rng.pick([('none', None), ('int', 5), ('str', 'and'),
+                                ('list', [1])])
+            value = 'operator:' + name
+            what = f'{cls}.operator = {name}'
+            out, _ = self.c17_outcome(lambda: setattr(obj, 'operator', v),
+                                      True, what, cls, 'operator', value,
+                                      target=a, delete=True)
+            self.ev(slot=a, cls=cls, field='operator', value=value,
+                    invalid=True, outcome=out)
+            if out == 'wrongly-accepted':
+                S.model.tainted.add('operator')
+            return
         if f in ('region1', 'region2'):
             if invalid:
                 c = rng.pick(['none', 'str', 'wrongkind'])
